@@ -1,5 +1,6 @@
 SPECIFICATION TSpec
 CONSTANTS
   Vouchers = {"va", "vb", "vc"}
+  BackDenoms = {"va", "vb", "vc"}
   HookReturnsAck = TRUE
 CHECK_DEADLOCK FALSE
